@@ -1,6 +1,9 @@
 import IgrisModel.Common.Proto
 import IgrisModel.C13.Model
 import IgrisModel.C13.Shape
+import IgrisModel.C13.Tie
+import IgrisModel.C13.Nested
+import IgrisModel.C13.IntW
 open Igris.Proto Igris.C13
 
 def hexOfChars (cs : List Char) : String :=
@@ -39,6 +42,78 @@ def shapeOfFmt (fmt : List Char) (stars : List Igris.C06.Arg) (neg : Bool) (text
         else if c = 'g' || c = 'G' then some .g else none
       conv.map fun cv => isoShape cv ops width precision neg text
 
+/-- what the tie canonicalisation needs of the directive: length of the literal text in front of and
+behind it, the conversion in lower case, the precision (C06 parser, as `directive` uses it) -/
+structure DirInfo where
+  pre : Nat
+  post : Nat
+  conv : Char
+  hasPrec : Bool
+  prec : Int
+  ops : Igris.C06.Ops
+
+def dirInfo (fmt : List Char) (stars : List Igris.C06.Arg) : Option DirInfo :=
+  let pre := fmt.takeWhile (· ≠ '%')
+  let begin := fmt.dropWhile (· ≠ '%')
+  let (s, ops) := Igris.C06.flagsLoop begin.tail {}
+  match Igris.C06.getWidth s stars ops with
+  | none => none
+  | some (_, s, stars, ops) =>
+    match Igris.C06.getPrec s stars ops with
+    | none => none
+    | some (precision, s, _, ops) =>
+      let (s, ops) := Igris.C06.getLen s ops
+      let c := Igris.C06.hd s
+      some { pre := pre.length, post := s.tail.length, conv := c.toLower, hasPrec := ops.prec, prec := precision, ops := ops }
+
+/-- result field of a floating conversion: the text byte for byte, or - in the tie class of `Tie.lean` - the
+lower neighbour as an exact rational (round 3: the property leaves the direction of a tie open) -/
+def showPF (fmt : List Char) (st : List Igris.C06.Arg) (x : FV) (r : Res) : String :=
+  match r, x with
+  | .done out _, .fin _ m =>
+    match dirInfo fmt st with
+    | some d =>
+      let body := (out.drop d.pre).take (out.length - d.pre - d.post)
+      match tieCanon d.conv d.hasPrec d.prec m body with
+      | some q => "T " ++ toString q.num ++ "/" ++ toString q.den
+      | none =>
+        -- a tie of the engine's own scaled value that is not a tie of the argument (unit finer than the engine's error)
+        if isFine d.conv d.hasPrec d.prec m && tieSeen b64A cfgNow FUEL (.fin false m) d.prec d.ops (d.conv = 'e') (d.conv = 'g') then "Tf" else showRes r
+    | none => showRes r
+  | _, _ => showRes r
+
+/-- one conversion of a `pfn` op: its result field, and the characters it hands to the callback -/
+def pieceOf (kind f a : String) : Option (String × List Char) := do
+  let fmt ← (parseBytes? f).map fun bs => bs.map fun c => Char.ofNat c.toNat
+  if kind = "d" then
+    let bits ← parseHexNat? a
+    let r := printfF b64A cfgNow fmt [] (ofBits bits) (decide (bits ≥ 2 ^ 63))
+    let out := match r with | .done out _ => out | _ => []
+    pure (showPF fmt [] (ofBits bits) r, out)
+  else
+    let arg ← (match a.toList with
+      | 'i' :: ':' :: rest => (String.ofList rest).toInt?.map fun v => Igris.C06.Arg.int (BitVec.ofInt 32 v)
+      | 'l' :: ':' :: rest => (String.ofList rest).toInt?.map fun v => Igris.C06.Arg.long (BitVec.ofInt 64 v)
+      | 's' :: ':' :: rest => (parseBytes? (String.ofList rest)).map fun bs =>
+          Igris.C06.Arg.str (bs.map (fun c => Char.ofNat c.toNat) ++ [Igris.C06.NUL])
+      | _ => none : Option Igris.C06.Arg)
+    match Igris.C06.printf fmt [arg] with
+    | .done out pc => pure (toString pc ++ " " ++ hexOfChars out, out)
+    | .fault => pure ("fault", [])
+    | .badarg => pure ("badarg", [])
+    | .unsupported => pure ("unsupported", [])
+    | .diverged => pure ("diverged", [])
+
+/-- what the model embeds of the constants of the code (op `consts`) -/
+def constsLine : String :=
+  "buff_fits=" ++ (if max cfgNow.expMax 1 + cfgNow.fracMax + 7 ≤ cfgNow.size then "1" else "0") ++ " FRAC_MAX=" ++ toString cfgNow.fracMax ++ " EXP_MAX=" ++ toString cfgNow.expMax ++
+  " PREC_DEFAULT=6 sizeof_DOUBLE=8 sizeof_int=4 ops=1,2,4,8,16,32,16384,8192 sizeof_long_double=16"
+
+def opsOfMask (m : Nat) : Igris.C06.Ops :=
+  { left := m % 2 = 1, sign := (m / 2) % 2 = 1, space := (m / 4) % 2 = 1, spec := (m / 8) % 2 = 1,
+    zero := (m / 16) % 2 = 1, prec := (m / 32) % 2 = 1, upper := (m / 16384) % 2 = 1,
+    len := if (m / 8192) % 2 = 1 then .bigL else .none }
+
 def stepLine (_ : Unit) (line : String) : Unit × String :=
   let r : Option String :=
     match words line with
@@ -46,7 +121,7 @@ def stepLine (_ : Unit) (line : String) : Unit × String :=
       let fmt ← (parseBytes? f).map fun bs => bs.map fun c => Char.ofNat c.toNat
       let bits ← parseHexNat? b
       let st ← stars.mapM parseStar
-      pure (showRes (printfF b64A cfgNow fmt st (ofBits bits) (decide (bits ≥ 2 ^ 63))))
+      pure (showPF fmt st (ofBits bits) (printfF b64A cfgNow fmt st (ofBits bits) (decide (bits ≥ 2 ^ 63))))
     | "sh" :: f :: n :: t :: stars | "shm" :: f :: n :: t :: stars => do
       let fmt ← (parseBytes? f).map fun bs => bs.map fun c => Char.ofNat c.toNat
       let text ← (parseBytes? t).map fun bs => bs.map fun c => Char.ofNat c.toNat
@@ -58,7 +133,37 @@ def stepLine (_ : Unit) (line : String) : Unit × String :=
       let se ← parseHexNat? se
       let m ← parseHexNat? m
       let st ← stars.mapM parseStar
-      pure (showRes (printfF b64A cfgNow fmt st (cvt64 (ofBits80 se m)) (decide (se ≥ 32768)) true))
+      pure (showPF fmt st (cvt64 (ofBits80 se m)) (printfF b64A cfgNow fmt st (cvt64 (ofBits80 se m)) (decide (se ≥ 32768)) true))
+    | ["pfn", _, k, ka, fa, aa, kb, fb, ab] => do
+      let k ← k.toNat?
+      let (ra, outA) ← pieceOf ka fa aa
+      let (rb, _) ← pieceOf kb fb ab
+      -- the callback of the experiment (Nested.lean): the nested conversion is the independent call
+      let st := runNested k (fun _ => rb) outA
+      pure (ra ++ " | " ++ st.inner.getD "-")
+    | ["pm", _, f, b] => do
+      let fmt ← (parseBytes? f).map fun bs => bs.map fun c => Char.ofNat c.toNat
+      let bits ← parseHexNat? b
+      pure (showPF fmt [] (ofBits bits) (printfF b64A cfgNow fmt [] (ofBits bits) (decide (bits ≥ 2 ^ 63))))
+    | ["consts"] => pure constsLine
+    -- the LONG_DOUBLE flavour of the engine is not modelled (the harness oracle judges it)
+    | ["pfx", _, _, _] => pure "ld"
+    | ["pfd", b, w, p, m, we, sh] => do
+      let bits ← parseHexNat? b
+      let width ← w.toNat?
+      let precision ← p.toNat?
+      let ops := opsOfMask (← parseHexNat? m)
+      let x := ofBits bits
+      -- `printFC`: the emission part in C `int` arithmetic (IntW.lean)
+      let r := resOf (printFC b64A cfgNow FUEL x (decide (bits ≥ 2 ^ 63)) width precision ops (we = "1") (sh = "1"))
+      match r, x with
+      | .done out _, .fin _ mag =>
+        let conv := if sh = "1" then 'g' else if we = "1" then 'e' else 'f'
+        match tieCanon conv ops.prec (if ops.prec then precision else 0) mag out with
+        | some q => pure ("T " ++ toString q.num ++ "/" ++ toString q.den)
+        | none =>
+          if isFine conv ops.prec (if ops.prec then precision else 0) mag && tieSeen b64A cfgNow FUEL (.fin false mag) precision ops (we = "1") (sh = "1") then pure "Tf" else pure (showRes r)
+      | _, _ => pure (showRes r)
     | ["ar", "cvt", se, m] => do
       let se ← parseHexNat? se
       let m ← parseHexNat? m
